@@ -390,6 +390,10 @@ def run(res):
                 k = lines[i].split()[0] + ":" + " ".join(impl[i].split()[:2] if impl[i].startswith("err") else impl[i].split()[:1])
                 if lines[i].startswith("state"):
                     k = "state"
+                elif lines[i].startswith("names"):
+                    k = "names"
+                elif lines[i].startswith("find"):
+                    k = "find:" + ("none" if impl[i] == "none" else "hit")
                 kinds[k] = kinds.get(k, 0) + 1
                 if lines[i].split()[0] in ("flatten", "copy", "copysec", "reloc", "jitadd") and impl[i].startswith("ok"):
                     nontriv.add((lines[i], impl[i], impl[i - 1] if i > a else ""))
